@@ -20,7 +20,7 @@ var opcodes = map[string]byte{
 	"MLOAD": 0x51, "MSTORE": 0x52, "SLOAD": 0x54, "SSTORE": 0x55, "JUMP": 0x56, "JUMPI": 0x57, "GAS": 0x5a,
 	"JUMPDEST": 0x5b, "LOG0": 0xa0, "LOG1": 0xa1, "LOG3": 0xa3, "CALL": 0xf1, "RETURN": 0xf3, "REVERT": 0xfd,
 	"SELFDESTRUCT": 0xff, "RETURNDATASIZE": 0x3d, "RETURNDATACOPY": 0x3e, "CODECOPY": 0x39, "SELFBALANCE": 0x47,
-	"CODESIZE": 0x38, "EXTCODESIZE": 0x3b, "EXTCODECOPY": 0x3c, "CREATE": 0xf0, "DELEGATECALL": 0xf4,
+	"CODESIZE": 0x38, "EXTCODESIZE": 0x3b, "EXTCODECOPY": 0x3c, "CREATE": 0xf0, "DELEGATECALL": 0xf4, "CREATE2": 0xf5,
 }
 
 // assemble: one token per whitespace; "name:" defines a label (emits JUMPDEST),
